@@ -32,6 +32,9 @@ impl ParsedTestCase {
 //@fn ParsedTestCase.check_duplicate_signals
 //@fn ParsedTestCase.build_indices
 //@fn ParsedTestCase.check_missing_signals
+//@fn ParsedTestCase.check_and_consume_expected_inputs
+//@fn ParsedTestCase.build_read_outputs
+//@fn ParsedTestCase.with_signals
 }
 
 } // verus!
